@@ -395,6 +395,28 @@ func subjectFor(r *mon.Rec, kind string, idx int, typed map[int]string) subject 
 					genericize(rng, &im.Options.Options)
 				}
 			}
+			if rng.IntN(3) == 0 {
+				// values set by hand that no wire form carries exactly: an elapsed time beyond what 16 bits of
+				// hundredths hold or finer than a hundredth, lifetimes beyond 32 bits of seconds or with a fraction
+				if im, err := m.GetInnerMessage(); err == nil && im != nil {
+					im.UpdateOption(dhcpv6.OptElapsedTime([]time.Duration{656 * time.Second, time.Hour, 655360 * time.Millisecond, 655355 * time.Millisecond, 5 * time.Millisecond, 1234567 * time.Microsecond, 49 * 24 * time.Hour}[rng.IntN(7)]))
+					big := []time.Duration{1500 * time.Millisecond, (1<<32 + 5) * time.Second, 999 * time.Millisecond, 50000 * 24 * time.Hour}[rng.IntN(4)]
+					for _, o := range im.Options.Options {
+						switch v := o.(type) {
+						case *dhcpv6.OptIANA:
+							v.T1, v.T2 = big, big+time.Second
+							for _, a := range v.Options.Addresses() {
+								a.PreferredLifetime, a.ValidLifetime = big, big+time.Millisecond
+							}
+						case *dhcpv6.OptIAPD:
+							v.T1, v.T2 = big, big+time.Second
+							for _, a := range v.Options.Prefixes() {
+								a.PreferredLifetime, a.ValidLifetime = big, big+time.Millisecond
+							}
+						}
+					}
+				}
+			}
 			return opsOf(m)
 		}, true}
 	case "v6dec":
